@@ -309,7 +309,7 @@ func c03Prop(c *Ctx) {
 
 func init() {
 	props["C03"] = c03Prop
-	corrs["C03"] = func(c *Ctx) { linkCorr(c); fragCorr(c) }
+	corrs["C03"] = func(c *Ctx) { linkCorr(c); fragCorr(c); decCorr(c) }
 	replays["C03"] = func(c *Ctx, raw json.RawMessage) (bool, string) {
 		var in c03Input
 		if err := json.Unmarshal(raw, &in); err != nil || in.Src == "" {
